@@ -472,6 +472,11 @@ func normalizeSetField(
 
 	switch {
 	case !isNil(old) && isNil(val):
+		if indexesPrimitive(cfg, opts, p) {
+			// like any other value: name spells a list, the other spelling
+			// found first has defined a primitive value
+			return raiseDuplicateKey(cfg, name)
+		}
 		return nil
 	case isNil(old):
 		err := p.SetValue(cfg, opts, val)
@@ -493,6 +498,26 @@ func normalizeSetField(
 	default:
 		return raiseDuplicateKey(cfg, name)
 	}
+}
+
+// indexesPrimitive checks if path p uses an index on a primitive value. Reading
+// accepts a primitive value as a list of one element, the definition of a list
+// next to the definition of a primitive value is a duplicate.
+func indexesPrimitive(cfg *Config, opts *options, p cfgPath) bool {
+	cur := value(cfgSub{cfg})
+	for _, field := range p.fields {
+		if _, isIdx := field.(idxField); isIdx && !isNil(cur) {
+			if _, err := cur.toConfig(opts); err != nil {
+				return true
+			}
+		}
+		next, err := field.GetValue(opts, cur)
+		if err != nil || next == nil {
+			return false
+		}
+		cur = next
+	}
+	return false
 }
 
 // checkNoDuplicates reports a duplicate key if a and b, two partial
